@@ -36,7 +36,8 @@ static struct sched_cfg C;
 static struct sched_stats ST;
 static uint64_t rs;               // splitmix64 state
 static size_t sw_idx = 0;
-static uint64_t *tr_y = 0; static int *tr_t = 0; static size_t ntr = 0, captr = 0;
+#define MAXTR (1u << 18)
+static uint64_t tr_y[MAXTR]; static int tr_t[MAXTR]; static size_t ntr = 0; static int tr_overflow = 0;
 static uint64_t pct_cp[16]; static int pct_ncp = 0; static int pct_low = 0;
 static uint64_t burst_left = 0;
 
@@ -56,11 +57,8 @@ static void fwake(int *f) {
   syscall(SYS_futex, f, FUTEX_WAKE_PRIVATE, 1, 0, 0, 0);
 }
 static void record(uint64_t y, int t) {
-  if (ntr == captr) {
-    captr = captr ? captr * 2 : 256;
-    tr_y = (uint64_t *)realloc(tr_y, captr * sizeof *tr_y);
-    tr_t = (int *)realloc(tr_t, captr * sizeof *tr_t);
-  }
+  // static storage: this unit must not call the (wrapped) allocator from inside library context
+  if (ntr >= MAXTR) { tr_overflow = 1; return; }
   tr_y[ntr] = y; tr_t[ntr] = t; ntr++;
 }
 static int nrunnable(int except) {
@@ -96,7 +94,7 @@ static int pick_forced(int except) {
 void sched_begin(int ntasks, const struct sched_cfg *cfg) {
   NT = ntasks > MAXT ? MAXT : ntasks;
   C = *cfg; memset(&ST, 0, sizeof ST); ST.sig = 1469598103934665603ull;
-  rs = cfg->seed; sw_idx = 0; ntr = 0; main_fut = 0; burst_left = 0;
+  rs = cfg->seed; sw_idx = 0; ntr = 0; tr_overflow = 0; main_fut = 0; burst_left = 0;
   for (int i = 0; i < NT; i++) { T[i].fut = 0; T[i].state = 0; T[i].prio = 0; }
   if (C.mode == SCHED_PCT) {
     // distinct random priorities d..d+n-1, change points lower the running task to d-1, d-2, ...
